@@ -100,9 +100,13 @@ def run(tier, seed, replay=None):
         os.makedirs(d)
         open(os.path.join(d, "in.ttf"), "wb").write(font)
         shutil.copy(common.STDDEF, d)
-        gdl = ('#include "stddef.gdh"\ntable(glyph) cX = glyphid(%s) {collision.complexFit = 1};%s endtable;\n'
+        # complexFit written as a literal, or as an expression over glyph metrics that is 1 for every glyph with an outline
+        fit = crng.choice(["1", "1", "true", "(boundingbox.height > 0m) ? 1 : 0", "min(1, boundingbox.width + boundingbox.height)",
+                           "(advancewidth >= 0m) ? 1 : 0"])
+        gdl = ('#include "stddef.gdh"\ntable(glyph) cX = glyphid(%s) {collision.complexFit = FITEXPR};%s endtable;\n'
                'table(pos) pass(1) {CollisionFix = %d} cX {collision.flags = 1}; endpass; endtable;\n'
                % (", ".join(map(str, cx)), (" cS = glyphid(%s);" % ", ".join(map(str, simple))) if simple else "", crng.choice([1, 2, 3])))
+        gdl = gdl.replace("FITEXPR", fit)
         open(os.path.join(d, "p.gdl"), "w").write(gdl)
         rc, log, _ = common.run_grc(build, d, ["-q", "p.gdl", "in.ttf", "out.ttf"])
         if rc != 0:
@@ -111,7 +115,7 @@ def run(tier, seed, replay=None):
                 rep.violation("c%04d-crash" % i, {"problem": "compiler ended with status %s" % rc, "log": log[-400:], "gdl": gdl})
             shutil.rmtree(d, ignore_errors=True)
             continue
-        outs = common.run_grcv(["infont %s/in.ttf" % d, "font %s/out.ttf" % d, "c20"])
+        outs = common.run_grcv(["infont %s/in.ttf" % d, "font %s/out.ttf" % d, "c20 " + ",".join(map(str, cx))])
         res = [l for l in outs[2:] if l and l != "done"]
         stats["fonts"] += 1
         bad = [l for l in res if not l.startswith("ok ")]
@@ -141,7 +145,7 @@ def run(tier, seed, replay=None):
                 shutil.rmtree(dd, ignore_errors=True)
                 shutil.copytree(d, dd)
                 rep.violation("c%04d" % i, {"case": "c%04d" % i, "checker_lines": other[:10],
-                                           "rerun": "cd %s && printf 'infont in.ttf\\nfont out.ttf\\nc20\\n' | %s" % (dd, common.grcv_path())})
+                                           "rerun": "cd %s && printf 'infont in.ttf\\nfont out.ttf\\nc20 <complexFit glyph ids, comma-separated>\\n' | %s" % (dd, common.grcv_path())})
         if len(samples) < 2:
             samples.append({"case": "c%04d" % i, "complex_glyphs": cx, "c20": res[:3]})
         shutil.rmtree(d, ignore_errors=True)
